@@ -184,6 +184,11 @@ async fn run_case(case: &Case, info: &mut CaseInfo, root: std::path::PathBuf) ->
             if t0.elapsed() > ceiling {
                 ensure!(applied, "infra", "phase {pi}: remote changes not applied within {ceiling:?}");
                 let what = format!("phase {pi} on {table}: {:?} (remote order seed {order})", phase.iter().map(|t| (t.origin, t.ops.iter().map(crate::c11::sop_sql).collect::<Vec<_>>())).collect::<Vec<_>>());
+                if std::env::var_os("KVERIF_TRACE").is_some() {
+                    let conn = cl.b.agent.pool().client_dedicated_readonly().map_err(|e| Fail::infra(e.to_string()))?;
+                    let rows = query_result(&conn, &format!(r#"SELECT hex(pk), cid, val, col_version, db_version, cl, seq, hex(substr(site_id,1,3)) FROM crsql_changes WHERE "table" = '{table}' ORDER BY 1,2"#)).map_err(|e| Fail::infra(e.to_string()))?;
+                    eprintln!("crsql_changes of {table} on the node: {rows:?}");
+                }
                 ensure!(missing.is_empty(), "every-changed-key-is-notified", "{what}: rows of keys {missing:?} differ between the start and the end of the phase but no notification arrived for them; notifications so far: {log:?}");
                 ensure!(wrong.is_empty(), "last-notification-tells-the-final-fate", "{what}: (key, last notification, row exists) = {wrong:?}; notifications so far: {log:?}");
                 break;
